@@ -74,7 +74,7 @@ var (
 		{IP: net.IPv4(10, 1, 0, 1), Port: 5000, User: 0},
 		{IP: net.IPv4(10, 1, 0, 1), Port: 5001, User: 0}, // same IP, other port, same user
 		{IP: net.IPv4(10, 1, 0, 2), Port: 5000, User: 1}, // other IP, same port, other user
-		{IP: net.IPv4(10, 1, 0, 3), Port: 6000, User: 2},
+		{IP: net.IPv4(10, 1, 0, 3), Port: 6000, User: 3},
 		{IP: net.ParseIP("fd00:1::1"), Port: 5000, User: 1}, // IPv6 client (needs ServerV6)
 		{IP: net.ParseIP("fd00:1::2"), Port: 5001, User: 0},
 	}
@@ -87,12 +87,17 @@ var (
 		{IP: net.ParseIP("fd00:2::1"), Port: 7000}, // IPv6 peer
 		{IP: net.IPv4(10, 2, 0, 4), Port: 9},
 		{IP: net.ParseIP("::ffff:10.2.0.2"), Port: 7000}, // IPv4-mapped form of peer 2's IP
+		{IP: net.ParseIP("fd00:2::2"), Port: 7001},       // second IPv6 peer
+		{IP: net.ParseIP("fd00:2::1"), Port: 7009},       // same IPv6 address as peer 4, other port
 	}
 
 	Users = []struct{ Name, Pass string }{
 		{"alice", "pw-alice"},
 		{"bob", "pw-bob"},
 		{"carol", "pw-carol"},
+		{"acme:1001", "pw-acme"},   // ids that differ only before / only after a colon
+		{"globex:1001", "pw-globex"},
+		{"acme:2002", "pw-acme2"},
 	}
 
 	// ChannelSlots covers all classes of channel numbers.
